@@ -199,6 +199,15 @@ static void ref_cmp(const Ctx *x, Ref *r) {            /* strcmp_s strcasecmp_s 
         if (a != b || !a) { r_out(r, sgn((long)a - (long)b)); r->sign_only = 1; return; }
     }
 }
+static void ref_ncmp(const Ctx *x, Ref *r) {           /* wcsncmp_s: the sign wcsncmp gives over the first min(count, dmax, smax) elements */
+    QO q; qo(x, &q); long cnt = x->c->k;
+    for (long i = 0;; i++) {
+        if (i >= cnt) { r_out(r, 0); r->sign_only = 1; return; }
+        if ((!q.dterm && i >= q.dn) || (!q.sterm && i >= q.sn)) { if (!q.dterm && i >= q.dn) { r_out(r, 0); r->sign_only = 1; } else r->verdict = V_ANY; return; }   /* dmax elements equal; what a src that ends first without terminator compares as is not defined */
+        unsigned long a = i < q.dn ? q.d[i] : 0, b = i < q.sn ? q.s[i] : 0;
+        if (a != b || !a) { r_out(r, sgn((long)a - (long)b)); r->sign_only = 1; return; }
+    }
+}
 static void ref_cmpfld(const Ctx *x, Ref *r) {         /* strcmpfld_s: dmax characters, NUL does not stop */
     long n = NEL(x);
     if (s_elems(x) < n) { r->verdict = V_ANY; return; }
@@ -385,7 +394,7 @@ Fn fntab[] = {
     ROW(timingsafe_bcmp,   "K T n bd bs", 1, 1, 1, 1, RT_V, LIM_MEM, F_QRY | F_MEMH | F_SAMELEN | F_NONULL | F_LAX, ref_tscmp),
     ROW(timingsafe_memcmp, "K T n bd bs", 1, 1, 1, 1, RT_V, LIM_MEM, F_QRY | F_MEMH | F_SAMELEN | F_NONULL | F_LAX, ref_tscmp),
     ROW(wcscmp_s,       "Q n S l oI bd bs", 4, 4, 4, 4, RT_E, LIM_WSTR, F_QRY | F_WIDE, ref_cmp),
-    ROW(wcsncmp_s,      "Q n S l k oI bd bs", 4, 4, 4, 4, RT_E, LIM_WSTR, F_QRY | F_WIDE, NULL),
+    ROW(wcsncmp_s,      "Q n S l k oI bd bs", 4, 4, 4, 4, RT_E, LIM_WSTR, F_QRY | F_WIDE, ref_ncmp),
     ROW(wcsicmp_s,      "Q n S l oI bd bs", 4, 4, 4, 4, RT_E, LIM_WSTR, F_QRY | F_WIDE, ref_cmp),
     ROW(wcsnatcmp_s,    "Q n S l c oI bd bs", 4, 4, 4, 4, RT_E, LIM_WSTR, F_QRY | F_WIDE, NULL),
     ROW(wcscoll_s,      "Q n S l oI bd bs", 4, 4, 4, 4, RT_E, LIM_WSTR, F_QRY | F_WIDE, ref_cmp),
